@@ -388,3 +388,109 @@ Definition dht_find_node_reply (announce matched : bool) (own target resp : N) (
            | _ => FnFault
            end
        end.
+
+(* ------------------------------------------------------------------ a whole search driven by DhtServer
+   dht::DhtSearch (contact set ordered by XOR distance, status per contact, m_pending / m_concurrency, m_restart /
+   m_next) as driven by DhtServer::find_node, process_response -> parse_find_node_reply -> find_node_next.
+   The DhtSearch part follows coq/C15/ModelSearch.v (copied, not imported); what is added here is the server side:
+   which contacts a sequence of matched replies makes the server query. *)
+Inductive cstat := CNew | CActive | CGood | CBad.
+Record contact := mkC { c_id : N; c_addr : addr; c_st : cstat }.
+Record search := mkS { s_cs : list contact; s_pending : N; s_conc : N; s_restart : bool; s_next : option N }.
+
+Definition max_contacts : N := 18.
+Definition closer (t a b : N) : bool := N.lxor a t <? N.lxor b t.
+Definition is_new (c : contact) : bool := match c_st c with CNew => true | _ => false end.
+Definition is_active (c : contact) : bool := match c_st c with CActive => true | _ => false end.
+
+Fixpoint insert_contact (t : N) (c : contact) (l : list contact) : option (list contact) :=
+  match l with
+  | [] => Some [c]
+  | x :: r => if closer t (c_id c) (c_id x) then Some (c :: l)
+              else if closer t (c_id x) (c_id c) then
+                     match insert_contact t c r with Some r' => Some (x :: r') | None => None end
+              else None
+  end.
+
+(* DhtSearch::add_contact *)
+Definition s_add_contact (t : N) (s : search) (id : N) (a : addr) : search :=
+  match insert_contact t (mkC id a CNew) (s_cs s) with
+  | Some l => mkS l (s_pending s) (s_conc s) true (s_next s)
+  | None => s
+  end.
+
+Fixpoint trim_go (need : N) (l : list contact) : list contact :=
+  match l with
+  | [] => []
+  | c :: r => if negb (is_active c) && (need =? 0) then trim_go need r else c :: trim_go (N.pred need) r
+  end.
+
+Definition first_new (l : list contact) : option N :=
+  match find is_new l with Some c => Some (c_id c) | None => None end.
+
+Definition s_trim (s : search) : search :=
+  let l := trim_go max_contacts (s_cs s) in mkS l (s_pending s) (s_conc s) false (first_new l).
+
+Fixpoint set_status (id : N) (st : cstat) (l : list contact) : list contact :=
+  match l with
+  | [] => []
+  | c :: r => if c_id c =? id then mkC (c_id c) (c_addr c) st :: r else c :: set_status id st r
+  end.
+
+Fixpoint next_new_after (id : N) (l : list contact) : option N :=
+  match l with
+  | [] => None
+  | c :: r => if c_id c =? id then first_new r else next_new_after id r
+  end.
+
+Definition find_contact (id : N) (l : list contact) : option contact := find (fun c => c_id c =? id) l.
+
+(* DhtSearch::get_contact *)
+Definition s_get_contact (s : search) : search * option contact :=
+  if s_conc s <=? s_pending s then (s, None)
+  else let s1 := if s_restart s then s_trim s else s in
+       match s_next s1 with
+       | None => (s1, None)
+       | Some id =>
+           let l := set_status id CActive (s_cs s1) in
+           (mkS l (s_pending s1 + 1) (s_conc s1) (s_restart s1) (next_new_after id l), find_contact id l)
+       end.
+
+(* the loops  `while (n != search->end()) { add_transaction(FindNode(n)); n = search->get_contact(); }` *)
+Fixpoint s_fill (fuel : nat) (s : search) (acc : list contact) : search * list contact :=
+  match fuel with
+  | O => (s, acc)
+  | S f => match s_get_contact s with
+           | (s', Some c) => s_fill f s' (acc ++ [c])
+           | (s', None) => (s', acc)
+           end
+  end.
+
+Definition fill_fuel : nat := 8.
+
+(* DhtServer::find_node(contacts, target) *)
+Definition search_start (t : N) (init : list (N * addr)) : search * list contact :=
+  let s0 := fold_left (fun s r => s_add_contact t s (fst r) (snd r)) init (mkS [] 0 3 false None) in
+  s_fill fill_fuel s0 [].
+
+(* a reply from node `resp` carrying the compact `nodes` string (records already parsed) *)
+Definition search_reply (own t : N) (s : search) (resp : N) (recs : list (N * addr)) : search * list contact :=
+  match find_contact resp (s_cs s) with
+  | Some c =>
+      if is_active c then
+        let s1 := mkS (set_status resp CGood (s_cs s)) (N.pred (s_pending s)) (s_conc s) (s_restart s) (s_next s) in
+        let s2 := fold_left (fun s r => if fst r =? own then s else s_add_contact t s (fst r) (snd r)) recs s1 in
+        s_fill fill_fuel s2 []
+      else (s, [])                       (* no transaction outstanding for that node *)
+  | None => (s, [])
+  end.
+
+(* the whole exchange: initial queries, then for every reply the queries it triggers *)
+Definition search_run (own t : N) (init : list (N * addr)) (replies : list (N * bytes)) : list (list contact) :=
+  let '(s0, q0) := search_start t init in
+  snd (fold_left (fun st rp =>
+                    let '(s, outs) := st in
+                    match parse_compact_nodes (snd rp) with
+                    | POk recs => let '(s', q) := search_reply own t s (fst rp) recs in (s', outs ++ [q])
+                    | _ => (s, outs ++ [[]])
+                    end) replies (s0, [q0])).
